@@ -858,8 +858,12 @@ def run_untruncated(case):
     s0 = np.linalg.svd(x.astype(np.complex128), compute_uv=False)
     info["rankdef"] = bool(s0[-1] <= 1e-7 * max(s0[0], 1e-300))
     if driver in HERMITIAN_ONLY:
+        # "has a (numerically) non-positive eigenvalue" must be judged at the working precision: the eigenvalues quimb
+        # sees carry the backward error of an eigh in x's own dtype (~ n * eps * |w|max), so an exact +3e-9 of a float32
+        # matrix is computed as -5e-8 there (thorough tier, seed 1).  Full-rank generated psd kinds stay far above this.
         w = np.linalg.eigvalsh(x.astype(np.complex128))
-        info["nonpos_eig"] = bool(w.min() <= 1e-12 * max(abs(w).max(), 1e-300))
+        margin = max(1e-12, 10 * x.shape[0] * float(np.finfo(np.dtype(real_dtype(x.dtype))).eps))
+        info["nonpos_eig"] = bool(w.min() <= margin * max(abs(w).max(), 1e-300))
         info["sqrt_form"] = eff in SQRT_FORMS
     opts = dict(max_bond=None, cutoff=None if case["cutoff_none"] else 0.0)
     if driver == "lu":
